@@ -471,21 +471,30 @@ static void fam_c08_drain(G& g, Plan& p) {
 // long producer/consumer: bounded number of live blocks, memory must stay bounded
 static void fam_c08_prodcons(G& g, Plan& p) {
   int L = 8 + (int)g.below(120);
-  int ncls = 1 + (int)g.below(2); std::vector<size_t> cls; for (int i = 0; i < ncls; i++) cls.push_back(class_req(g, 44));
-  int R = g.pick({500, 2000, 6000});
+  const bool ring = g.chance(0.7);
+  const bool big = g.chance(0.5);       // few blocks per page and a long run: a page that is never reused shows as growth beyond the bound
+  int ncls = 1 + (int)g.below(2); std::vector<size_t> cls;
+  for (int i = 0; i < ncls; i++) { auto bs = bin_sizes(); size_t b = big ? bs[36 + g.below(8)] : bs[g.below(44)]; cls.push_back((g.padded && b > 8) ? b - 8 : b); }
+  int R = big ? g.pick({20000, 60000}) : g.pick({500, 2000, 6000});
   int ncons = 1 + (int)g.below(2);
   p.nslots = L; p.progs.resize((size_t)(1 + ncons));
   p.sample_verify = false;
-  size_t maxb = 0; for (auto c : cls) if (c > maxb) maxb = c;
-  size_t per_page = (64 * KiB) / (maxb + 16); if (per_page < 1) per_page = 1;
-  uint64_t bound = 4 * ((uint64_t)((size_t)L + per_page - 1) / per_page + (uint64_t)ncls + 2);
+  // Bound that follows from the design, independent of the length of the run: remotely freed blocks of a full page become
+  // reusable when the owner processes its delayed-free list, which it does every 100th call of the generic allocation path
+  // (src/page.c:_mi_malloc_generic); each such call adds at most one fresh page. A block whose page is mid-free in a parked
+  // consumer is skipped for one more round (at most one page per consumer).
+  uint64_t bound = 110 + 2 * (uint64_t)ncons;
+  for (auto c : cls) { size_t per_page = (64 * KiB) / (c + 16); if (per_page < 1) per_page = 1; bound += ((uint64_t)L + (uint64_t)ncons + per_page - 1) / per_page + 4; }
   Program& P0 = p.progs[0];
   spawn_all(p, 1 + ncons, false, g);
   for (int r = 0; r < R; r++) {
-    P0.ops.push_back(mk(OP_malloc, r % L, cls[(size_t)r % cls.size()]));
+    { Op o = mk(OP_malloc, r % L, cls[(size_t)r % cls.size()]); if (ring) o.flags |= OPF_WAIT; P0.ops.push_back(o); }
     if (r % 50 == 49) P0.ops.push_back(mk(OP_pc_sample, -1, bound, (uint64_t)L));
   }
-  for (int c = 1; c <= ncons; c++) for (int r = 0; r < R; r++) p.progs[(size_t)c].ops.push_back(mk(OP_free, (r * ncons + c - 1) % L));
+  // ring: a bounded queue (the producer waits for an empty slot, a consumer for a filled one), so that every one of the R blocks
+  // really is allocated by one thread and freed by another whatever the schedule; otherwise operations on a slot in the wrong state are skipped
+  if (ring) for (int r = 0; r < R; r++) { Op o = mk(OP_free, r % L); o.flags |= OPF_WAIT; p.progs[(size_t)(1 + r % ncons)].ops.push_back(o); }
+  else for (int c = 1; c <= ncons; c++) for (int r = 0; r < R; r++) p.progs[(size_t)c].ops.push_back(mk(OP_free, (r * ncons + c - 1) % L));
   for (int c = 1; c <= ncons; c++) P0.ops.push_back(mk(OP_join, c));
   P0.ops.push_back(mk(OP_pc_sample, -1, bound, (uint64_t)L));
   P0.ops.push_back(mk(OP_free_all));
